@@ -36,7 +36,7 @@ def todo (processed : Datasets) (n : Nat) : List Nat :=
 /-- one step of program `i` (if it has one left) -/
 def stepProgram : List (List Write) → Nat → Option (Write × List (List Write))
   | [], _ => none
-  | [] :: ps, 0 => none
+  | [] :: _, 0 => none
   | (w :: p) :: ps, 0 => some (w, p :: ps)
   | p :: ps, i + 1 => (stepProgram ps i).map (fun (w, ps') => (w, p :: ps'))
 
@@ -116,7 +116,7 @@ def Db.scan (c : ManyCodec) (db : Db) : List (Nat × List Nat) :=
 /-- a grouping used by the driver: full merges of `k1` operands at a time, inside a group partial
 merges of `k2` adjacent operands, nested once more when `deep` -/
 def chunks {α : Type} (k : Nat) (l : List α) : List (List α) :=
-  if k = 0 then [l] else
+  if k = 0 then (if l.isEmpty then [] else [l]) else
   let rec go (fuel : Nat) (l : List α) : List (List α) :=
     match fuel, l with
     | 0, _ => []
@@ -284,7 +284,7 @@ inductive RTree where
   | ident
   | leaf (d : Nat)
   | node (l r : RTree)
-  deriving Repr
+  deriving Repr, Inhabited
 
 /-- evaluate a reduction tree; `none` = a panic somewhere -/
 def RTree.eval (C : List (List Nat)) : RTree → Option (H2C × Colors)
